@@ -378,6 +378,9 @@ def optimize_kl(likelihood_energy,
         if dry_run:
             from ..logger import logger
             logger.info(f"Iteration {iglobal} checked")
+            # the transitions of the following iterations act on samples that
+            # live on the (possibly changed) domain of this iteration
+            sl = _single_value_sample_list(mean, comm(iglobal))
             pop_sseq()
             continue
 
